@@ -1,6 +1,7 @@
 package worlds
 
 import (
+	"bytes"
 	"context"
 	"encoding/json"
 	"errors"
@@ -18,7 +19,7 @@ import (
 
 type c13Plan struct {
 	Knobs     Knobs  `json:"knobs"`
-	Kind      string `json:"kind"` // cancel | closed-calls | conn-close | close-queue | close-send
+	Kind      string `json:"kind"` // cancel | closed-calls | conn-close | close-queue | close-send | close-recv
 	Logical   bool   `json:"logical"`
 	QueueSize int    `json:"queue_size"`
 	NPkgs     int    `json:"npkgs"`
@@ -29,6 +30,7 @@ type c13Plan struct {
 	CancelAfter int    `json:"cancel_after,omitempty"`
 	Consumer    string `json:"consumer,omitempty"` // next | until | until-nil
 	SendAfter   bool   `json:"send_after,omitempty"`
+	FlushFull   bool   `json:"flush_full,omitempty"` // the cancelled send is the flush of a message that exactly filled its packets
 	// close
 	Logout      string `json:"logout,omitempty"` // answer | late | never
 	LateMs      int    `json:"late_ms,omitempty"`
@@ -51,7 +53,7 @@ func (c13) NRuns(tier string) int {
 	return 3000
 }
 func (c13) Rule() string {
-	return "scenario kinds: cancel (a consumer in NextPackage/NextPackageUntil while packets arrive asynchronously, a canceller cancels its own or the connection's context at a scheduled step; then a send with the cancelled context), closed-calls (every API call after Close, double Close), conn-close (Conn.Close with 0..2 logical channels), close-queue (Close with 0..capacity+3 abandoned packages queued, reader possibly blocked on a full queue; logout answered, answered late or never), close-send (Close racing SendPackage on the same channel); every sync point is a seeded scheduling choice; bounded liveness = no client task still blocked at quiescence and Close within 60s of simulated time; non-trivial = the cancel/close landed while another task was inside a call on the channel; distinct = distinct (kind, schedule-trace hash)"
+	return "scenario kinds: cancel (a consumer in NextPackage/NextPackageUntil while packets arrive asynchronously, a canceller cancels its own or the connection's context at a scheduled step; then a send - or the flush of a message that exactly filled its packets - with the cancelled context), close-recv (Close while a consumer is blocked in a receive on the same channel), closed-calls (every API call after Close, double Close), conn-close (Conn.Close with 0..2 logical channels), close-queue (Close with 0..capacity+3 abandoned packages queued, reader possibly blocked on a full queue; logout answered, answered late or never), close-send (Close racing SendPackage on the same channel); every sync point is a seeded scheduling choice; bounded liveness = no client task still blocked at quiescence and Close within 60s of simulated time; non-trivial = the cancel/close landed while another task was inside a call on the channel; distinct = distinct (kind, schedule-trace hash)"
 }
 func (c13) Components() map[string]string {
 	return map[string]string{"tds (Conn, reader goroutine, Channel incl. Close/Logout/NextPackage/SendPackage)": "real (rewritten), RWMutex writer preference modelled", "transport": "stub: simrt.Conn", "server": "stub: scripted peer with logout policies", "clock/contexts": "simulated (1-minute logout timeout costs no wall time)"}
@@ -59,7 +61,8 @@ func (c13) Components() map[string]string {
 
 func (c13) Gen(r *Rand, idx int, tier string) interface{} {
 	p := &c13Plan{Knobs: GenKnobs(r)}
-	p.Kind = Pick(r, []string{"cancel", "cancel", "closed-calls", "conn-close", "close-queue", "close-queue", "close-send"})
+	p.Kind = Pick(r, []string{"cancel", "cancel", "closed-calls", "conn-close", "close-queue", "close-queue", "close-send", "close-recv"})
+	p.FlushFull = r.Pct(40)
 	p.Logical = r.Pct(40)
 	p.QueueSize = Pick(r, []int{1, 2, 3, 5, 100})
 	p.NPkgs = r.Intn(p.QueueSize + 4)
@@ -169,6 +172,8 @@ type c13Res struct {
 	closeDone  bool
 	inCall     bool // another task was inside a call when cancel/close happened
 	delivered  []int32
+	// event sequence numbers around a send issued with a cancelled context: nothing may reach the transport in between
+	cancelledSend [2]int
 }
 
 func (r *c13Res) violate(class, sig, format string, a ...interface{}) {
@@ -263,6 +268,8 @@ func (c13) Run(plan interface{}, schedSeed uint64, replay []simrt.Choice, lenien
 			c13CloseQueue(p, res, conn, ch)
 		case "close-send":
 			c13CloseSend(p, res, conn, ch)
+		case "close-recv":
+			c13CloseRecv(p, res, conn, ch)
 		}
 		_ = bg
 	})
@@ -294,6 +301,14 @@ func (c13) Run(plan interface{}, schedSeed uint64, replay []simrt.Choice, lenien
 	for _, w := range res.viol {
 		parts := strings.SplitN(w, "|", 3)
 		v.Violate(parts[0], parts[1], "%s", parts[2])
+	}
+	if res.cancelledSend[1] > 0 {
+		for i, sq := range pr.PacketSeq {
+			if sq > res.cancelledSend[0] && sq < res.cancelledSend[1] {
+				v.Violate("write-after-cancel", "cancel: a send with a cancelled context wrote to the transport", "%s: packet %s reached the transport although the call's context was already cancelled", p.Kind, pr.Asm.Packets[i].H)
+			}
+		}
+		v.Probe("send-with-cancelled-context")
 	}
 	if res.closeDone && res.closeEnd-res.closeStart > 61*time.Second {
 		v.Violate("slow-close", "close took longer than the logout timeout", "%s: Close took %v of simulated time", p.Kind, res.closeEnd-res.closeStart)
@@ -395,12 +410,28 @@ func c13Cancel(p *c13Plan, res *c13Res, conn *tds.Conn, ch *tds.Channel, cancelP
 		}
 	})
 	simrt.Join(consumer, canceller)
-	if p.SendAfter && p.CancelWhat == "own" {
+	if p.SendAfter && p.CancelWhat == "own" && p.FlushFull {
+		// queue exactly one packet body with a live context (it is sent at once), then flush with the cancelled one
+		raw := tds.NewTokenlessPackage()
+		raw.Data.Write(bytes.Repeat([]byte{0x55}, conn.PacketBodySize()))
+		if err := ch.QueuePackage(context.Background(), raw); err != nil {
+			res.setupErr = "queue: " + err.Error()
+			return
+		}
+		before := simrt.Record("flush-cancelled-call", "", "", 0)
+		err := ch.SendRemainingPackets(own)
+		after := simrt.Record("flush-cancelled-ret", "", "", 0)
+		res.cancelledSend = [2]int{before, after}
+		if err == nil {
+			res.violate("send-after-cancel", "cancel: flush with cancelled context succeeded", "SendRemainingPackets with a cancelled context returned nil")
+		} else if !errors.Is(err, context.Canceled) {
+			res.violate("wrong-error", "cancel: send error does not wrap the context error", "SendRemainingPackets with a cancelled context returned %q", err)
+		}
+	} else if p.SendAfter && p.CancelWhat == "own" {
 		before := simrt.Record("send-cancelled-call", "", "", 0)
 		err := ch.SendPackage(own, &tds.LanguagePackage{Cmd: "late"})
 		after := simrt.Record("send-cancelled-ret", "", "", 0)
-		_ = before
-		_ = after
+		res.cancelledSend = [2]int{before, after}
 		if err == nil {
 			res.violate("send-after-cancel", "cancel: send with cancelled context succeeded", "SendPackage with a cancelled context returned nil")
 		} else if !errors.Is(err, context.Canceled) {
@@ -557,4 +588,54 @@ func c13CloseSend(p *c13Plan, res *c13Res, conn *tds.Conn, ch *tds.Channel) {
 	if err := ch.SendPackage(bg, &tds.LanguagePackage{Cmd: "after"}); !errors.Is(err, tds.ErrChannelClosed) {
 		res.violate("no-closed-error", "closed: SendPackage returned nil", "SendPackage after Close returned %v", err)
 	}
+}
+
+// c13CloseRecv: Close while a consumer is blocked in a receive on the same channel.
+func c13CloseRecv(p *c13Plan, res *c13Res, conn *tds.Conn, ch *tds.Channel) {
+	bg, cancel := simrt.WithTimeout(context.Background(), 10*time.Minute)
+	defer cancel()
+	if p.NPkgs > 0 {
+		if err := ch.SendPackage(bg, &tds.LanguagePackage{Cmd: "req"}); err != nil {
+			res.setupErr = "send: " + err.Error()
+			return
+		}
+	}
+	var consumerIn bool
+	// the consumer waits without a deadline of its own: only Close can end its wait
+	none := context.Background()
+	consumer := simrt.Spawn("consumer", func() {
+		for i := 0; i < p.NPkgs+4; i++ {
+			consumerIn = true
+			var err error
+			if p.Consumer == "next" {
+				_, err = ch.NextPackage(none, true)
+			} else {
+				_, err = ch.NextPackageUntil(none, true, func(tds.Package) (bool, error) { return true, nil })
+			}
+			consumerIn = false
+			seq := simrt.Record("consumer-ret", "", "", 0)
+			if err != nil {
+				if !errors.Is(err, tds.ErrChannelClosed) {
+					res.violate("wrong-error", "close-recv: receive error is not ErrChannelClosed", "receive returned %q while the channel was being closed", err)
+				}
+				return
+			}
+			if res.closeDone && seq > res.closeRet {
+				res.violate("delivery-after-close", "closed: receive delivered a package", "a receive returned a package after Close had returned")
+			}
+		}
+	})
+	closer := simrt.Spawn("closer", func() {
+		for i := 0; i < p.CloseAfter; i++ {
+			simrt.Yield(0)
+		}
+		res.inCall = consumerIn
+		res.closeStart = simrt.SimNow()
+		res.closeCall = simrt.Record("close-call", "", "", 0)
+		_ = ch.Close()
+		res.closeRet = simrt.Record("close-ret", "", "", 0)
+		res.closeEnd = simrt.SimNow()
+		res.closeDone = true
+	})
+	simrt.Join(consumer, closer)
 }
